@@ -66,6 +66,7 @@ func newSeedEnv(env *brokerx.Env) SeedEnv {
 			Master: env.Master,
 			Victim: env.MustKey("victim/", security.AllowRead),
 			Canary: env.MustKey("canary/#/", security.AllowRead|security.AllowWrite),
+			Exact:  env.MustKey("a/b/", security.AllowRead|security.AllowWrite),
 		},
 		Contract: env.License.Contract(),
 		HashA:    hash.Of([]byte("a")),
